@@ -65,15 +65,32 @@ def _lock():
     return f
 
 
+POISON = ("(* GENERATOR-FAILED: %s\n%s\n*)\n"
+          "(* the translator is fail-closed: everything that depends on this file must not build *)\n"
+          "Definition generator_failed : False := I.\n")
+
+
 def regenerate():
-    """Regenerate coq/gen/*.v from /repo's current working tree (fail closed)."""
+    """Regenerate coq/gen/*.v from /repo's current working tree.  Every generator is fail-closed:
+    when one aborts, the files it is responsible for (named `coq/gen/<X>.v` in its source) are
+    replaced by a file that does not compile, so exactly the theorems that depend on the
+    translated code stop checking (a broken obligation of THOSE properties) while the checks of
+    unrelated properties are not disturbed."""
     os.makedirs(os.path.join(COQ, "gen"), exist_ok=True)
     logs = []
     for script in sorted(glob.glob(os.path.join(VERIF, "harness", "gen_*.py"))):
         rc, out = sh([IMPL_PY, script], cwd=VERIF, env=impl_env())
         logs.append(out)
         if rc != 0:
-            raise BuildError("generator %s failed (translator is fail-closed)" % os.path.basename(script), out)
+            outs = sorted(set(re.findall(r"coq/gen/(\w+)\.v", open(script).read())))
+            if not outs:
+                raise BuildError("generator %s failed (translator is fail-closed)" % os.path.basename(script), out)
+            for name in outs:
+                path = os.path.join(COQ, "gen", name + ".v")
+                txt = POISON % (os.path.basename(script), out[-1500:].replace("*)", "* )"))
+                if not os.path.exists(path) or open(path).read() != txt:
+                    open(path, "w").write(txt)
+            logs.append("GENERATOR FAILED: %s -> poisoned %s" % (os.path.basename(script), outs))
     return "\n".join(logs)
 
 
@@ -251,7 +268,10 @@ class Oracle:
 
 
 def compile_props(cid):
-    """Compile coq/props/<cid>.v; returns dict(obligations, discharged, theorems, assumptions, cmd, log, ok)."""
+    """Compile coq/props/<cid>.v; returns dict(obligations, discharged, theorems, assumptions, cmd, log, ok).
+    Done under ONE hold of the build lock together with a fresh regeneration of coq/gen from the
+    repository under test and a `make` of everything the props file depends on, so that a
+    concurrently running check of another tree cannot swap the generated files in between."""
     path = os.path.join(COQ, "props", cid + ".v")
     src = open(path).read()
     src_nc = re.sub(r"\(\*.*?\*\)", "", src, flags=re.S)
@@ -259,7 +279,18 @@ def compile_props(cid):
     cmd = "coqc -R %s V %s" % (COQ, path)
     lk = _lock()
     try:
+        pre = ""
+        try:
+            pre = regenerate()
+            write_coqproject()
+            rcm, outm = make(["props/%s.vo" % cid], timeout=2400)
+            if rcm != 0:
+                pre += "\n" + outm[-3000:]
+        except BuildError as ex:
+            pre += "\n" + ex.what + "\n" + ex.log[-2000:]
         rc, out = sh(["timeout", "900", "coqc", "-R", COQ, "V", path], cwd=COQ)
+        if rc != 0:
+            out = pre[-4000:] + "\n" + out
     finally:
         lk.close()
     # each `Print Assumptions` prints either "Closed under the global context" or "Axioms:" + list
